@@ -1,7 +1,9 @@
 (* Model side of the configuration probe (C19): same case lines, same output lines.
    Trusted glue: tokenising, hex decoding, interning of strings to atoms, viper lookup semantics (a key is set iff it
    occurs on the line; module names are the second path component; typed getters with the code's SetDefault values),
-   turning the F: facts into the oracle function fields. *)
+   turning the F: facts into the oracle function fields, and the X: token (state of the caller's ApplicationContext:
+   fresh | preset | reuse, the latter with the P-prefixed tokens of the configuration of the earlier Start) into the
+   model's app_state. *)
 open Model
 open Vutil
 
@@ -36,19 +38,20 @@ let coord_name (k : coord) : string = match k with
 
 let coords (l : coord list) : string = String.concat "," (List.sort compare (List.map coord_name l))
 
-let run (line : string) : string =
-  let toks = (toks_of_line line).rest in
-  (match toks with "cfg" :: _ :: _ :: _ -> () | _ -> failwith "drv_config: not a cfg case");
-  let toks = List.tl (List.tl (List.tl toks)) in
-  (* interning: hex string -> atom; the empty string is 0 *)
-  let atoms : (string, int) Hashtbl.t = Hashtbl.create 64 in
-  let names : (int, string) Hashtbl.t = Hashtbl.create 64 in
-  let atom (h : string) : z =
-    if h = "" then Z0 else
-    match Hashtbl.find_opt atoms h with
-    | Some i -> zi i
-    | None -> let i = Hashtbl.length atoms + 1 in Hashtbl.add atoms h i; Hashtbl.add names i (unhex h); zi i in
-  let name_of (a : z) : string = if a = Z0 then "" else try Hashtbl.find names (iz a) with Not_found -> "?" in
+(* interning: hex string -> atom; the empty string is 0 (one table per case line, shared by prelude and main config) *)
+let atoms : (string, int) Hashtbl.t = Hashtbl.create 64
+let names : (int, string) Hashtbl.t = Hashtbl.create 64
+let atom (h : string) : z =
+  if h = "" then Z0 else
+  match Hashtbl.find_opt atoms h with
+  | Some i -> zi i
+  | None -> let i = Hashtbl.length atoms + 1 in Hashtbl.add atoms h i; Hashtbl.add names i (unhex h); zi i
+let name_of (a : z) : string = if a = Z0 then "" else try Hashtbl.find names (iz a) with Not_found -> "?"
+let hex_of (a : z) : string = if a = Z0 then "" else
+  let n = iz a in Hashtbl.fold (fun h i acc -> if i = n then h else acc) atoms ""
+
+(* one configuration from its tokens *)
+let build (toks : string list) : config =
   let kv : (string * value) list ref = ref [] in
   let facts : (string, bool) Hashtbl.t = Hashtbl.create 64 in
   let files = ref [] in
@@ -77,8 +80,6 @@ let run (line : string) : string =
       | s :: n :: _ :: _ when s = sect && not (List.mem n acc) -> acc @ [n]
       | _ -> acc) [] kv in
   let fact key = match Hashtbl.find_opt facts key with Some b -> b | None -> false in
-  let hex_of (a : z) : string = if a = Z0 then "" else
-    let n = iz a in Hashtbl.fold (fun h i acc -> if i = n then h else acc) atoms "" in
   let oracle kind = fun (a : z) -> fact (kind ^ ":" ^ hex_of a) in
   let cls_of h = match unhex h with
     | "inmemory" -> ClsInmemory | "caching" -> ClsCaching | "http" -> ClsHttp | "email" -> ClsEmail | "null" -> ClsNull
@@ -88,7 +89,7 @@ let run (line : string) : string =
   let nm s = atom (String.concat "" (List.map (fun c -> Printf.sprintf "%02x" (Char.code c)) (List.of_seq (String.to_seq s)))) in
   let opt k = if is_set k then Some (atom (get_s k)) else None in
   let legacy root = is_set (root ^ ".group-whitelist") || is_set (root ^ ".group-blacklist") in
-  let cfg = {
+  {
     cfg_notifier_table = is_set "notifier";
     cfg_zk_servers = List.map atom (get_l "zookeeper.servers");
     cfg_zk_root = opt "zookeeper.root-path";
@@ -135,15 +136,38 @@ let run (line : string) : string =
     keypair_ok = (fun c k -> fact ("pair:" ^ hex_of c ^ ":" ^ hex_of k));
     ca_pem_ok = oracle "capem";
     reachable = (fun _ -> false);    (* nothing listens on the addresses the catalogue uses *)
-  } in
+  }
+
+let run (line : string) : string =
+  let toks = (toks_of_line line).rest in
+  (match toks with "cfg" :: _ :: _ :: _ -> () | _ -> failwith "drv_config: not a cfg case");
+  let toks = List.tl (List.tl (List.tl toks)) in
+  Hashtbl.reset atoms; Hashtbl.reset names;
+  let is_pre tk = String.length tk > 2 && tk.[0] = 'P' in
+  let is_ctx tk = String.length tk > 2 && tk.[0] = 'X' && tk.[1] = ':' in
+  let ctx = match List.filter is_ctx toks with
+    | [] -> "fresh" | [tk] -> String.sub tk 2 (String.length tk - 2) | _ -> failwith "drv_config: more than one X: token" in
+  let pre_toks = List.map (fun tk -> String.sub tk 1 (String.length tk - 1)) (List.filter is_pre toks) in
+  let main_toks = List.filter (fun tk -> not (is_pre tk) && not (is_ctx tk)) toks in
+  (* the state of the ApplicationContext when Start is entered, and what the probe prints about how it came about *)
+  let (a0, pre) = match ctx with
+    | "fresh" -> (fresh_app, "")
+    | "preset" -> (used_app, "")
+    | "reuse" ->
+        let pc = build pre_toks in
+        let po = canonical_order pc in
+        let prc = match start po pc fresh_app with Panicked _ -> "PANIC" | Returned (rc, _) -> sz rc in
+        (app_after_history [(po, pc)] fresh_app, Printf.sprintf " pre=%s/%b" prc (config_valid po pc fresh_app))
+    | _ -> failwith ("drv_config: unknown context " ^ ctx) in
+  let cfg = build main_toks in
   let show o =
-    match start o cfg with
+    match start o cfg a0 with
     | Panicked _ -> "PANIC model"
     | Returned (rc, st) ->
-        Printf.sprintf "RET %s valid=%b configured=%s started=%s" (sz rc) (config_valid o cfg) (coords (configured o cfg)) (coords st) in
+        Printf.sprintf "RET %s valid=%b configured=%s started=%s%s" (sz rc) (config_valid o cfg a0) (coords (configured o cfg)) (coords st) pre in
   let a = show (canonical_order cfg) and b = show (reverse_order cfg) in
   let reqs = requirements cfg in
-  let old = match start_old (canonical_order cfg) cfg with
+  let old = match start_old (canonical_order cfg) cfg a0 with
     | Panicked (PanicZap (_, _)) -> "PANIC zap" | Panicked (PanicError (_, _)) -> "PANIC error"
     | Panicked (PanicString (_, _)) -> "PANIC string" | Returned (rc, _) -> "RET " ^ sz rc in
   let first = match configure_all (canonical_order cfg) cfg with
@@ -151,4 +175,4 @@ let run (line : string) : string =
   (if a = b then a else "ORDER-DEPENDENT [" ^ a ^ "] [" ^ b ^ "]")
   ^ " # reqs=" ^ string_of_int (List.length reqs) ^ " "
   ^ String.concat "," (List.map (fun (s, m) -> site_name s ^ "@" ^ name_of m) reqs)
-  ^ " first=" ^ first ^ " old=" ^ old
+  ^ " first=" ^ first ^ " old=" ^ old ^ " ctx=" ^ ctx ^ "/" ^ string_of_bool (app_valid a0)
